@@ -398,9 +398,11 @@ class C19(Check):
             if after != held:
                 self.viol(vs, "embedded-hash", "embed:refused-but-changed:%s" % hist, "embed", a,
                           {"exit": r.code, "file": after}, {"file": held})
-            else:
-                self.viol(vs, "image-refused", "embed:message-over-existing-file:%s" % hist, "embed", a,
+            elif a.pre == "absent" and not a.seq:
+                self.viol(vs, "image-refused", "embed:message-to-new-file", "embed", a,
                           {"exit": r.code, "out": r.out[-300:]}, {"exit": 0, "signer": want})
+            else:
+                stats.dont_care += 1      # declining to overwrite, file left alone: not pinned
             return
         if not isinstance(d, dict) or d.get("signer") != want:
             self.viol(vs, "embedded-hash", "embed:message-over-%s" %
@@ -472,12 +474,14 @@ class C19(Check):
             stats.evaluations += 1
             stream = opstub.ByteStream(label)
             inputs = {n: td.read(n, binary=True) for n in td.listing() if n in names}
+            before = {n: td.read(n, binary=True) for n in td.listing()}
             r = opstub.run_main(self.signonetime.main,
                                 ["signonetime.py", "-a", app_arg, "-p", pkpath + (" " if a.pad else "")] +
                                 (["-v"] if a.verbose else []),
                                 patches=opstub.seam_urandom(stream))
             files = {n: td.read(n, binary=True) for n in td.listing()}
-            written = {n: c for n, c in files.items() if inputs.get(n) != c}
+            written = {n: c for n, c in files.items() if before.get(n) != c}
+            failed = r.code != 0
             stats.observe(("onetime", len(a.images), a.sep, bool(a.missing), run, r.code, len(written)))
             stats.sample({"route": "onetime", "images": a.images, "run": run, "exit": r.code,
                           "files": sorted(written)})
@@ -519,8 +523,11 @@ class C19(Check):
                 sig_raw = files.get(nm + ".sig")
                 if want is None:
                     continue
-                if a.missing and names.index(nm) >= a.missing - 1 and sig_raw is None:
-                    continue                   # not reached before the failure
+                if failed and (nm + ".sig") not in written:
+                    # a run that ends with an error owes no file; what it DID write is judged
+                    continue
+                if failed and (pub is None or not ecsig.on_curve(pub)):
+                    continue
                 ok, why = False, None
                 try:
                     der = bytes.fromhex(sig_raw.decode("ascii").strip())
